@@ -51,6 +51,7 @@ type Gen struct {
 	emit     func(l Line) string // executes and records; returns result
 	metaCas  uint64
 	viewBodies bool
+	force    int // when >= 0: the entry point oneOp must choose next (index into its weights)
 }
 
 var xattrNames = []string{"_sync", "_sys", "usr", "u2"}
@@ -312,7 +313,12 @@ func (g *Gen) oneOp(c, k string) (purged bool) {
 	}
 	var l Line
 	l.Pos = []string{c, k}
-	switch g.r.weighted(weights) {
+	choice := g.r.weighted(weights)
+	if g.force >= 0 && g.force < len(weights) && weights[g.force] > 0 {
+		choice = g.force
+	}
+	g.force = -1
+	switch choice {
 	case 0:
 		l.Op = "add"
 		l.add("exp", u(g.exp()))
@@ -699,6 +705,13 @@ func (g *Gen) expiryProgram(n int) {
 			g.emit(Line{Op: "restart", Args: [][2]string{{"hlc", "0"}, {"mode", pick(g.r, []string{"reopen", "open"})}}})
 			g.stats["op:restart"]++
 			feeds = nil
+			observe()
+		}
+		if g.w.kind != "disk" && g.r.chance(6) {
+			// an in-memory bucket outlives its handles: closing all of them and opening it again by name changes nothing,
+			// in particular expiry stays in force (pending deadlines and deadlines set afterwards)
+			g.emit(Line{Op: "reopenmem"})
+			g.stats["op:reopenmem"]++
 			observe()
 		}
 	}
@@ -1323,6 +1336,10 @@ func (g *Gen) program(n int) {
 		g.colls = []string{"c0", "c1", "c2"}
 	}
 	g.keys = []string{"k0", "k1", "k2"}
+	if g.r.chance(20) {
+		// document IDs that are numeric literals denoting the same number are still different keys
+		g.keys = []string{"7", "07", "7.0"}
+	}
 	feeds := map[string][]string{}
 	if g.profile == "feeds" || g.profile == "multi" {
 		i := 0
@@ -1343,11 +1360,21 @@ func (g *Gen) program(n int) {
 			}
 		}
 	}
+	nextC, nextK := "", ""
 	for i := 0; i < n; i++ {
 		g.tick()
 		c := pick(g.r, g.colls)
 		k := pick(g.r, g.keys)
+		if nextC != "" {
+			// a live document whose body is empty is still a live document: the previous write left one, follow with an insert-style write of the same key
+			c, k = nextC, nextK
+			g.force = pick(g.r, []int{0, 2, 10, 12, 12, 20})
+			nextC, nextK = "", ""
+		}
 		purged := g.oneOp(c, k)
+		if row := g.curRow(c, k); row.Found && !row.ValueNull && len(row.Value) == 0 && g.r.chance(60) {
+			nextC, nextK = c, k
+		}
 		if purged {
 			for _, cc := range g.colls {
 				for _, kk := range g.obsKeys() {
